@@ -283,6 +283,17 @@ func (m *moCtx) stmt(s ast.Stmt) bool {
 								}
 							}
 						}
+						// X.f = append(X.f, v) into a struct field that the package only ever searches
+						// for the one element satisfying a test (order of the slice is irrelevant)
+						if len(x.Lhs) == 1 && len(call.Args) >= 1 {
+							if lse, ok := x.Lhs[0].(*ast.SelectorExpr); ok {
+								if ase, ok := call.Args[0].(*ast.SelectorExpr); ok && types.ExprString(lse) == types.ExprString(ase) {
+									if fv, ok := m.info.Uses[lse.Sel].(*types.Var); ok && fv.IsField() && m.searchOnlyField(fv) {
+										return true
+									}
+								}
+							}
+						}
 						return m.fail("append in an unrecognised shape: %s", types.ExprString(r))
 					}
 				}
@@ -634,4 +645,78 @@ func (e *Env) comparatorTotal2(pkg *packages.Package, d *ast.FuncDecl, pa, pb st
 		}
 	}
 	return ""
+}
+
+// searchOnlyField: apart from appends to itself, the slice field fv is used in the package only as
+// the operand of range loops whose body is a search: `if <test on the element> { return <element> }`
+// (optionally preceded by `if … { continue }` filters). The order of such a slice cannot be
+// observed as long as at most one element passes the test, which the caller's comment states.
+func (m *moCtx) searchOnlyField(fv *types.Var) bool {
+	var pkg *packages.Package
+	for _, p := range m.e.Prog.InScopePkgs() {
+		if p.Types == fv.Pkg() {
+			pkg = p
+		}
+	}
+	if pkg == nil {
+		return false
+	}
+	info := pkg.TypesInfo
+	good, uses := true, 0
+	for _, file := range pkg.Syntax {
+		var stack []ast.Node
+		ast.Inspect(file, func(n ast.Node) bool {
+			if n == nil {
+				stack = stack[:len(stack)-1]
+				return true
+			}
+			stack = append(stack, n)
+			se, ok := n.(*ast.SelectorExpr)
+			if !ok || info.Uses[se.Sel] != types.Object(fv) {
+				return true
+			}
+			parent := stack[len(stack)-2]
+			switch p := parent.(type) {
+			case *ast.AssignStmt: // lhs of X.f = append(X.f, …)
+				return true
+			case *ast.CallExpr: // first argument of that append
+				if id, ok := p.Fun.(*ast.Ident); ok && id.Name == "append" && len(p.Args) > 0 && p.Args[0] == ast.Expr(se) {
+					return true
+				}
+			case *ast.RangeStmt:
+				if p.X == ast.Expr(se) && p.Key != nil && types.ExprString(p.Key) == "_" {
+					vid, _ := p.Value.(*ast.Ident)
+					okBody := vid != nil
+					for _, st := range p.Body.List {
+						is, isIf := st.(*ast.IfStmt)
+						if !isIf || is.Else != nil || len(is.Body.List) != 1 {
+							okBody = false
+							break
+						}
+						switch b := is.Body.List[0].(type) {
+						case *ast.BranchStmt:
+							if b.Tok != token.CONTINUE {
+								okBody = false
+							}
+						case *ast.ReturnStmt:
+							if len(b.Results) != 1 {
+								okBody = false
+							} else if id, ok := b.Results[0].(*ast.Ident); !ok || info.Uses[id] != info.Defs[vid] {
+								okBody = false
+							}
+						default:
+							okBody = false
+						}
+					}
+					if okBody {
+						uses++
+						return true
+					}
+				}
+			}
+			good = false
+			return true
+		})
+	}
+	return good && uses > 0
 }
